@@ -410,3 +410,29 @@ def check_case_insensitive_compares(ctx, rid, floor_total=10):
     if n_ok < max(5, floor_total // 2):
         ctx.finding(rid, 'case-insensitive-compares/count', 'anchor lost: only %d lower-cased text comparisons found in the comparison family (%d on the pinned tree)' % (n_ok, floor_total))
     return n_ok
+
+
+def always_through(e, rx, depth=0):
+    """does every definition of the value e pass through a call matching rx? Walks through references, identity-like
+    calls, Cow / Option constructors and *all* branches of merged values; anything else that is not such a call says no"""
+    if depth > 40:
+        return False
+    while e[0] in ('ref', 'deref') or (e[0] == 'cast' and str(e[1]).startswith('PointerCoercion')):
+        e = e[3] if e[0] == 'cast' else e[1]
+    if e[0] == 'call':
+        if re.search(rx, e[1]):
+            return True
+        from .facts import is_transparent
+        if (is_transparent(e[1]) or re.search(r'Cow<.*>::(into_owned|as_ref)$|::as_str$|Index<.*>>::index$|String::as_str$', e[1])) and e[2]:
+            return always_through(e[2][0], rx, depth + 1)
+        return False
+    if e[0] == 'phi':
+        brs = [b for b in e[2] if b[0] != 'loop']
+        return bool(brs) and all(always_through(b, rx, depth + 1) for b in brs)
+    if e[0] == 'aggr' and re.search(r'borrow::Cow::(Borrowed|Owned)$|option::Option::Some$', str(e[1])) and e[2]:
+        return always_through(e[2][0], rx, depth + 1)
+    if e[0] in ('field', 'downcast'):
+        return always_through(e[1], rx, depth + 1)
+    return False
+
+
